@@ -2,7 +2,7 @@
    walk_spec, skip_spec (path[L] = last node of level L with key < k, candidate = first node with key >= k),
    get_spec.  The comparison is any total order (Section hypotheses). *)
 From Coq Require Import List ZArith Bool Arith Lia Sorted.
-From Golem Require Import Skiplist.Model Skiplist.Heap.
+From Golem Require Import Skiplist.Model Skiplist.Heap Skiplist.Loops.
 Import ListNotations.
 
 (* ------------------------------------------------------------------ list facts *)
@@ -76,6 +76,27 @@ Proof.
   rewrite Forall_forall in *. intros y Hy. apply Hx.
   apply in_map_iff in Hy. destruct Hy as (z & <- & Hz). apply in_map.
   apply filter_In in Hz. tauto.
+Qed.
+
+Lemma NoDup_app_remove_r {A} : forall (a b : list A), NoDup (a ++ b) -> NoDup a.
+Proof.
+  induction a as [|y a IH]; intros b H; cbn in *; [constructor|].
+  apply NoDup_cons_iff in H. destruct H as [Hy H]. constructor; eauto.
+  intros Hin. apply Hy. apply in_or_app. auto.
+Qed.
+
+Lemma NoDup_app_remove_l {A} : forall (a b : list A), NoDup (a ++ b) -> NoDup b.
+Proof.
+  induction a as [|y a IH]; intros b H; cbn in *; auto.
+  apply NoDup_cons_iff in H. destruct H as [Hy H]. auto.
+Qed.
+
+Lemma NoDup_app_disjoint {A} : forall (a b : list A) x, NoDup (a ++ b) -> In x a -> In x b -> False.
+Proof.
+  induction a as [|y a IH]; intros b x H Ha Hb; cbn in *; [tauto|].
+  apply NoDup_cons_iff in H. destruct H as [Hy H]. destruct Ha as [->|Ha].
+  - apply Hy. apply in_or_app. auto.
+  - eapply IH; eauto.
 Qed.
 
 Section Order.
@@ -401,5 +422,312 @@ Section Order.
     - subst hi. cbn. rewrite Ek. rewrite Z.eqb_refl.
       assert (Et : is_eq cmp k k = true) by (apply is_eq_true; reflexivity). rewrite Et. reflexivity.
     - rewrite afind_hi by auto. destruct hi; auto. rewrite Hne. reflexivity.
+  Qed.
+
+  (* ---------------------------------------------------------------- Put *)
+  Lemma nth_repeat_none : forall n L, nth L (repeat (@None nat) n) None = None.
+  Proof. induction n as [|n IH]; intros [|L]; cbn; auto. Qed.
+
+  Lemma contents_app h a b : contents h (a ++ b) = contents h a ++ contents h b.
+  Proof. apply map_app. Qed.
+
+  Lemma contents_ext h h' l :
+    (forall x, In x l -> keyof h' x = keyof h x /\ valof h' x = valof h x) -> contents h' l = contents h l.
+  Proof.
+    intros H. apply map_ext_in. intros x Hx. destruct (H x Hx) as [E1 E2]. rewrite E1, E2. reflexivity.
+  Qed.
+
+  Lemma keys_ext h h' l : (forall x, In x l -> keyof h' x = keyof h x) -> keys h' l = keys h l.
+  Proof. intros H. apply map_ext_in. exact H. Qed.
+
+  Lemma at_level_ext h h' L l : (forall x, In x l -> height h' x = height h x) -> at_level h' L l = at_level h L l.
+  Proof. intros H. apply filter_ext_in. intros x Hx. rewrite (H x Hx). reflexivity. Qed.
+
+  Lemma nodup_level h ns lo hi L : Rep h ns -> ns = lo ++ hi -> NoDup (0 :: at_level h L lo).
+  Proof.
+    intros R Ens. pose proof (Rep_nodup _ _ R) as Hnd. apply NoDup_cons_iff in Hnd. destruct Hnd as [H0 Hnd].
+    constructor.
+    - intros Hin. apply at_level_in in Hin. apply H0. rewrite Ens. apply in_or_app. tauto.
+    - apply NoDup_filter. rewrite Ens in Hnd. apply NoDup_app_remove_r in Hnd. exact Hnd.
+  Qed.
+
+  (* a node at or after the split point is never a path node *)
+  Lemma hi_not_pth h ns lo hi L x : Rep h ns -> ns = lo ++ hi -> In x hi -> x <> pth h lo L.
+  Proof.
+    intros R Ens Hx E. pose proof (Rep_nodup _ _ R) as Hnd. apply NoDup_cons_iff in Hnd. destruct Hnd as [H0 Hnd].
+    destruct (pth_in h lo L) as [E0|[Hin _]].
+    - apply H0. rewrite Ens. apply in_or_app. right. congruence.
+    - rewrite Ens in Hnd. rewrite <- E in Hin. exact (NoDup_app_disjoint _ _ _ Hnd Hin Hx).
+  Qed.
+
+  Lemma old_node h ns x : Rep h ns -> x = 0 \/ In x ns -> x < length h.
+  Proof.
+    intros R [->|Hx].
+    - destruct (rep_head _ _ R). lia.
+    - pose proof (rep_ids _ _ R) as H. rewrite Forall_forall in H. specialize (H x Hx). lia.
+  Qed.
+
+  (* overwrite: the value of one live node changes *)
+  Lemma set_val_rep h ns c v : Rep h ns -> Rep (set_val c v h) ns.
+  Proof.
+    intros R. constructor.
+    - rewrite length_set_val, height_set_val. exact (rep_head _ _ R).
+    - eapply Forall_impl; [|exact (rep_ids _ _ R)]. intros a Ha. cbn beta in *.
+      rewrite length_set_val, height_set_val. exact Ha.
+    - rewrite (keys_ext h). exact (rep_sorted _ _ R). intros x _. apply keyof_set_val.
+    - intros L HL. rewrite (at_level_ext h) by (intros; apply height_set_val).
+      eapply chain_ext; [|exact (rep_chain _ _ R L HL)]. intros x _. apply finger_set_val.
+  Qed.
+
+  Lemma afind_insert k k' v a b w :
+    afind k a = None ->
+    afind k' (a ++ (k, v) :: b) = if Z.eqb k' k then Some v else afind k' (a ++ (k, w) :: b).
+  Proof.
+    intros Ha. rewrite !afind_app. cbn [afind]. destruct (Z.eqb_spec k' k) as [->|Hne].
+    - rewrite Ha. reflexivity.
+    - reflexivity.
+  Qed.
+
+  Lemma afind_insert_new k k' v a b :
+    afind k a = None ->
+    afind k' (a ++ (k, v) :: b) = if Z.eqb k' k then Some v else afind k' (a ++ b).
+  Proof.
+    intros Ha. rewrite !afind_app. cbn [afind]. destruct (Z.eqb_spec k' k) as [->|Hne].
+    - rewrite Ha. reflexivity.
+    - reflexivity.
+  Qed.
+
+  Lemma afind_delete k k' v a b :
+    afind k a = None -> afind k b = None ->
+    afind k' (a ++ b) = if Z.eqb k' k then None else afind k' (a ++ (k, v) :: b).
+  Proof.
+    intros Ha Hb. rewrite !afind_app. cbn [afind]. destruct (Z.eqb_spec k' k) as [->|Hne].
+    - rewrite Ha. exact Hb.
+    - reflexivity.
+  Qed.
+
+  (* put_rep: the invariant is kept by Put for every height 1..levels, and the structure then stands
+     for the association list with k bound to v *)
+  Lemma put_rep h ns k v ht : Rep h ns -> 1 <= ht <= levels ->
+    exists ns', Rep (put cmp levels k v ht h) ns'
+      /\ forall k', afind k' (contents (put cmp levels k v ht h) ns')
+                    = if Z.eqb k' k then Some v else afind k' (contents h ns).
+  Proof.
+    intros R Hht.
+    destruct (split_at h k ns (rep_sorted _ _ R)) as (lo & hi & Ens & Hlo & Hhi).
+    destruct (skip_spec h ns lo hi k R Ens Hlo Hhi) as (path & Esk & Hplen & Hpath).
+    pose proof (Rep_nodup _ _ R) as Hnd. apply NoDup_cons_iff in Hnd. destruct Hnd as [Hn0 Hnd].
+    unfold put. rewrite Esk.
+    destruct (hi_cases h ns lo hi k R Ens Hhi) as [(c & r & Ehi & Ek & Hr)|[Hgt Hne]].
+    - (* the key is there: overwrite *)
+      subst hi. cbn [ohd]. rewrite Ek.
+      assert (Et : is_eq cmp k k = true) by (apply is_eq_true; reflexivity). rewrite Et.
+      exists ns. split; [apply set_val_rep; exact R|].
+      intros k'. rewrite Ens in Hnd.
+      assert (Hc : c < length h) by (apply (old_node h ns); auto; right; rewrite Ens; apply in_or_app; right; left; reflexivity).
+      assert (Hlo' : contents (set_val c v h) lo = contents h lo).
+      { apply contents_ext. intros x Hx. rewrite keyof_set_val. split; auto.
+        apply valof_set_val_other. intros E. subst x.
+        exact (NoDup_app_disjoint _ _ _ Hnd Hx (or_introl eq_refl)). }
+      assert (Hr' : contents (set_val c v h) r = contents h r).
+      { apply contents_ext. intros x Hx. rewrite keyof_set_val. split; auto.
+        apply valof_set_val_other. intros E. subst x.
+        apply NoDup_app_remove_l in Hnd. apply NoDup_cons_iff in Hnd. tauto. }
+      rewrite Ens, !contents_app. cbn [contents map]. fold (contents (set_val c v h) r). fold (contents h r).
+      rewrite Hlo', Hr', keyof_set_val, valof_set_val_same, Ek by exact Hc.
+      apply afind_insert. apply afind_lo. exact Hlo.
+    - (* the key is absent: a node of height ht is spliced in *)
+      set (id := length h).
+      set (h1 := h ++ [mkN k v (repeat None ht)]).
+      set (h' := fold_left (splice_step path id) (seq 0 ht) h1).
+      assert (Eput : match ohd hi None with
+                     | Some c' => if is_eq cmp (keyof h c') k then set_val c' v h else h'
+                     | None => h' end = h').
+      { destruct hi as [|c r]; cbn [ohd]; [reflexivity|]. rewrite Hne. reflexivity. }
+      rewrite Eput. clear Eput.
+      assert (Hlen1 : length h1 = S (length h)) by (unfold h1; rewrite app_length; cbn; lia).
+      assert (Hold1 : forall m, m < length h ->
+                 keyof h1 m = keyof h m /\ valof h1 m = valof h m /\ height h1 m = height h m
+                 /\ forall L, finger h1 m L = finger h m L).
+      { intros m Hm. unfold keyof, valof, height, finger, h1. rewrite getn_alloc_old by exact Hm. auto. }
+      assert (Hnew1 : keyof h1 id = k /\ valof h1 id = v /\ height h1 id = ht).
+      { unfold keyof, valof, height, h1, id. rewrite getn_alloc_new. cbn. rewrite repeat_length. auto. }
+      destruct Hnew1 as (Nk & Nv & Nh).
+      assert (Hpb : forall L, L < ht -> nth L path 0 = pth h lo L /\ pth h lo L < length h /\ L < height h (pth h lo L)).
+      { intros L HL. split; [apply Hpath; lia|]. apply (pth_bounds h ns lo hi R Ens). lia. }
+      assert (Hfold : forall L, 0 <= L < 0 + ht ->
+                nth L path 0 < length h1 /\ nth L path 0 <> id /\ L < height h1 (nth L path 0) /\ L < height h1 id).
+      { intros L HL. destruct (Hpb L ltac:(lia)) as (E & B1 & B2). rewrite E.
+        destruct (Hold1 _ B1) as (_ & _ & Eh & _). rewrite Eh, Nh, Hlen1. unfold id. lia. }
+      destruct (splice_fold path id ht 0 h1 ltac:(rewrite Hlen1; unfold id; lia) Hfold) as (Sh & G1 & G2 & G3 & G4).
+      fold h' in Sh, G1, G2, G3, G4. destruct Sh as [Hlen' Hsh].
+      assert (Hold : forall m, m < length h ->
+                 keyof h' m = keyof h m /\ valof h' m = valof h m /\ height h' m = height h m).
+      { intros m Hm. destruct (Hsh m) as (A & B & C). destruct (Hold1 m Hm) as (A1 & B1 & C1 & _).
+        rewrite A, B, C. auto. }
+      assert (Hnew : keyof h' id = k /\ valof h' id = v /\ height h' id = ht).
+      { destruct (Hsh id) as (A & B & C). rewrite A, B, C. auto. }
+      destruct Hnew as (Nk' & Nv' & Nh').
+      assert (Holdns : forall x, x = 0 \/ In x ns -> x < length h) by (intros x Hx; apply (old_node h ns); auto).
+      assert (Hinlo : forall x, In x lo -> In x ns) by (intros x Hx; rewrite Ens; apply in_or_app; auto).
+      assert (Hinhi : forall x, In x hi -> In x ns) by (intros x Hx; rewrite Ens; apply in_or_app; auto).
+      exists (lo ++ id :: hi). split.
+      + constructor.
+        * rewrite Hlen', Hlen1. split; [lia|]. destruct (Hold 0) as (_ & _ & E).
+          { destruct (rep_head _ _ R). lia. }
+          rewrite E. exact (proj2 (rep_head _ _ R)).
+        * assert (Hall : forall l, (forall x, In x l -> In x ns) ->
+                     Forall (fun n => 0 < n < length h' /\ 1 <= height h' n <= levels) l).
+          { intros l Hl. rewrite Forall_forall. intros x Hx.
+            pose proof (rep_ids _ _ R) as Hi. rewrite Forall_forall in Hi. specialize (Hi x (Hl x Hx)).
+            destruct (Hold x ltac:(lia)) as (_ & _ & E). rewrite E, Hlen', Hlen1. lia. }
+          apply Forall_app. split; [apply Hall; exact Hinlo|]. constructor; [|apply Hall; exact Hinhi].
+          rewrite Nh', Hlen', Hlen1. unfold id. destruct (rep_head _ _ R). lia.
+        * unfold keys. rewrite map_app. cbn [map]. rewrite Nk'.
+          fold (keys h' lo). fold (keys h' hi).
+          rewrite (keys_ext h h' lo), (keys_ext h h' hi).
+          2:{ intros x Hx. apply Hold. apply Holdns. auto. }
+          2:{ intros x Hx. apply Hold. apply Holdns. auto. }
+          apply SS_insert.
+          -- pose proof (rep_sorted _ _ R) as Hs. rewrite Ens in Hs. unfold keys in Hs. rewrite map_app in Hs. exact Hs.
+          -- rewrite Forall_forall in *. intros y Hy. apply in_map_iff in Hy. destruct Hy as (x & <- & Hx). auto.
+          -- rewrite Forall_forall in *. intros y Hy. apply in_map_iff in Hy. destruct Hy as (x & <- & Hx). apply Hgt. exact Hx.
+        * intros L HL.
+          destruct (chain_split h ns lo hi R Ens L HL) as [C1 C2].
+          assert (EA : at_level h' L lo = at_level h L lo).
+          { apply at_level_ext. intros x Hx. apply Hold. apply Holdns. auto. }
+          assert (EB : at_level h' L hi = at_level h L hi).
+          { apply at_level_ext. intros x Hx. apply Hold. apply Holdns. auto. }
+          assert (Hfold_old : forall x, x < length h -> (L < ht -> x <> pth h lo L) -> finger h' x L = finger h x L).
+          { intros x Hx Hp. destruct (Hold1 x Hx) as (_ & _ & _ & E). rewrite <- E.
+            destruct (Nat.lt_ge_cases L ht) as [Hlt|Hge].
+            - apply G4; [lia|unfold id; lia|]. destruct (Hpb L Hlt) as (Ep & _). rewrite Ep. auto.
+            - apply G1. lia. }
+          rewrite at_level_app. cbn [at_level filter]. fold (at_level h' L hi). rewrite Nh', EA, EB.
+          set (A := at_level h L lo) in *. set (B := at_level h L hi) in *.
+          destruct (Nat.ltb_spec L ht) as [Hlt|Hge].
+          -- destruct (Hpb L Hlt) as (Ep & Pb1 & Pb2).
+             assert (F3 : finger h' (pth h lo L) L = Some id) by (rewrite <- Ep; apply G3; lia).
+             assert (F2 : finger h' id L = finger h (pth h lo L) L).
+             { rewrite G2 by lia. rewrite Ep. destruct (Hold1 _ Pb1) as (_ & _ & _ & E). apply E. }
+             apply chain_app. split.
+             ++ cbn [ohd]. eapply chain_set_last; [| | |exact C1].
+                ** exact (nodup_level h ns lo hi L R Ens).
+                ** intros x Hx Hxl. apply Hfold_old.
+                   --- apply Holdns. destruct Hx as [<-|Hx]; auto. right. apply Hinlo.
+                       apply at_level_in in Hx. tauto.
+                   --- intros _. exact Hxl.
+                ** exact F3.
+             ++ cbn [chain]. split; [exact F3|].
+                assert (Hext : forall x, In x B -> finger h' x L = finger h x L).
+                { intros x Hx. apply at_level_in in Hx. destruct Hx as [Hx _]. apply Hfold_old.
+                  - apply Holdns. auto.
+                  - intros _. exact (hi_not_pth h ns lo hi L x R Ens Hx). }
+                unfold pth in C2. fold A in C2. unfold pth in F2. fold A in F2.
+                destruct B as [|d B']; cbn [chain] in *.
+                ** rewrite F2. exact C2.
+                ** destruct C2 as [C2a C2b]. split; [rewrite F2; exact C2a|].
+                   eapply chain_ext; [|exact C2b]. intros x Hx. apply Hext. exact Hx.
+          -- pose proof (rep_chain _ _ R L HL) as Hc. rewrite Ens, at_level_app in Hc. fold A B in Hc.
+             eapply chain_ext; [|exact Hc]. intros x Hx. apply Hfold_old; [|lia].
+             apply Holdns. destruct Hx as [<-|Hx]; auto. right.
+             apply in_app_or in Hx. destruct Hx as [Hx|Hx]; apply at_level_in in Hx; [apply Hinlo|apply Hinhi]; tauto.
+      + intros k'. rewrite Ens, !contents_app. cbn [contents map]. fold (contents h' hi).
+        rewrite Nk', Nv'.
+        rewrite (contents_ext h h' lo), (contents_ext h h' hi).
+        2:{ intros x Hx. destruct (Hold x) as (A & B & _); auto. }
+        2:{ intros x Hx. destruct (Hold x) as (A & B & _); auto. }
+        apply afind_insert_new. apply afind_lo. exact Hlo.
+  Qed.
+
+  (* ---------------------------------------------------------------- Remove *)
+  Lemma remove_rep h ns k : Rep h ns ->
+    exists ns', Rep (fst (remove cmp levels k h)) ns'
+      /\ snd (remove cmp levels k h) = alookup k (contents h ns)
+      /\ forall k', afind k' (contents (fst (remove cmp levels k h)) ns')
+                    = if Z.eqb k' k then None else afind k' (contents h ns).
+  Proof.
+    intros R.
+    destruct (split_at h k ns (rep_sorted _ _ R)) as (lo & hi & Ens & Hlo & Hhi).
+    destruct (skip_spec h ns lo hi k R Ens Hlo Hhi) as (path & Esk & Hplen & Hpath).
+    pose proof (Rep_nodup _ _ R) as Hnd. apply NoDup_cons_iff in Hnd. destruct Hnd as [Hn0 Hnd].
+    unfold remove. rewrite Esk.
+    destruct (hi_cases h ns lo hi k R Ens Hhi) as [(c & r & Ehi & Ek & Hr)|[Hgt Hne]].
+    - (* present: unlink c on every level *)
+      subst hi. cbn [ohd]. rewrite Ek.
+      assert (Et : is_eq cmp k k = true) by (apply is_eq_true; reflexivity). rewrite Et. cbn [fst snd].
+      rewrite (proj2 (rep_head _ _ R)).
+      set (h' := fold_left (remove_step path c) (seq 0 levels) h).
+      assert (Hfold : forall L, 0 <= L < 0 + levels -> nth L path 0 < length h /\ L < height h (nth L path 0)).
+      { intros L HL. rewrite Hpath by lia. apply (pth_bounds h ns lo (c :: r) R Ens). lia. }
+      destruct (remove_fold path c levels 0 h Hfold) as (Sh & G1 & G2 & G3 & G4).
+      fold h' in Sh, G1, G2, G3, G4. destruct Sh as [Hlen' Hsh].
+      assert (Hinlo : forall x, In x lo -> In x ns) by (intros x Hx; rewrite Ens; apply in_or_app; auto).
+      assert (Hinr : forall x, In x r -> In x ns) by (intros x Hx; rewrite Ens; apply in_or_app; right; right; auto).
+      assert (Hcr : ~ In c r).
+      { rewrite Ens in Hnd. apply NoDup_app_remove_l in Hnd. apply NoDup_cons_iff in Hnd. tauto. }
+      exists (lo ++ r). split; [|split].
+      + constructor.
+        * rewrite Hlen'. destruct (Hsh 0) as (_ & _ & E). rewrite E. exact (rep_head _ _ R).
+        * pose proof (rep_ids _ _ R) as Hi. rewrite Forall_forall in *. intros x Hx.
+          destruct (Hsh x) as (_ & _ & E). rewrite E, Hlen'. apply Hi.
+          apply in_app_or in Hx. destruct Hx; auto.
+        * rewrite (keys_ext h) by (intros x _; apply Hsh).
+          pose proof (rep_sorted _ _ R) as Hs. rewrite Ens in Hs. unfold keys in *. rewrite map_app in *.
+          cbn [map] in Hs. eapply SS_delete. exact Hs.
+        * intros L HL.
+          destruct (chain_split h ns lo (c :: r) R Ens L HL) as [C1 C2].
+          rewrite (at_level_ext h) by (intros x _; apply Hsh).
+          rewrite at_level_app.
+          set (A := at_level h L lo) in *. set (B := at_level h L r).
+          set (p := pth h lo L) in *.
+          assert (Ep : nth L path 0 = p) by (apply Hpath; exact HL).
+          assert (Hoth : forall x, x <> p -> finger h' x L = finger h x L).
+          { intros x Hx. apply G2; [lia|]. rewrite Ep. exact Hx. }
+          (* the node whose level-L finger the path node now carries *)
+          assert (Hq : exists q, chain h L q B None /\ finger h' p L = finger h q L).
+          { cbn [at_level filter] in C2. fold (at_level h L r) in C2. fold B in C2.
+            destruct (L <? height h c) eqn:Elt.
+            - cbn [chain] in C2. destruct C2 as [C2a C2b]. exists c. split; [exact C2b|].
+              rewrite <- Ep. apply G3; [lia|]. rewrite Ep. exact C2a.
+            - exists p. split; [exact C2|]. rewrite <- Ep. apply G4; [lia|]. rewrite Ep.
+              destruct B as [|d B'] eqn:EB; cbn [chain] in C2.
+              + rewrite C2. discriminate.
+              + destruct C2 as [C2a _]. rewrite C2a. intros E. inversion E; subst d.
+                apply Hcr. assert (Hin : In c (at_level h L r)) by (fold B; rewrite EB; left; reflexivity).
+                apply at_level_in in Hin. tauto. }
+          destruct Hq as (q & Cq & Fq).
+          assert (Fp : finger h' p L = ohd B None).
+          { rewrite Fq. destruct B; cbn [chain ohd] in *; tauto. }
+          apply chain_app. split.
+          -- eapply chain_set_last; [| | |exact C1].
+             ++ exact (nodup_level h ns lo (c :: r) L R Ens).
+             ++ intros x _ Hne. apply Hoth. exact Hne.
+             ++ exact Fp.
+          -- fold p. destruct B as [|d B'] eqn:EB; cbn [chain ohd] in *.
+             ++ exact Fp.
+             ++ split; [exact Fp|]. destruct Cq as [_ Cq]. eapply chain_ext; [|exact Cq].
+                intros x Hx. apply Hoth.
+                assert (Hin : In x (at_level h L r)) by (fold B; rewrite EB; exact Hx).
+                apply at_level_in in Hin. destruct Hin as [Hin _].
+                apply (hi_not_pth h ns lo (c :: r) L x R Ens). right. exact Hin.
+      + unfold alookup. rewrite Ens, contents_app, afind_app, afind_lo by exact Hlo.
+        cbn [contents map afind]. rewrite Ek, Z.eqb_refl. reflexivity.
+      + intros k'. rewrite (contents_ext h h') by (intros x _; split; apply Hsh).
+        rewrite Ens, !contents_app. cbn [contents map]. fold (contents h r). rewrite Ek.
+        apply afind_delete; [apply afind_lo; exact Hlo|apply afind_hi; exact Hr].
+    - (* absent: nothing changes, the zero value is returned *)
+      assert (Erem : match ohd hi None with
+                     | Some v => if is_eq cmp (keyof h v) k
+                                 then (fold_left (remove_step path v) (seq 0 (height h 0)) h, valof h v)
+                                 else (h, 0%Z)
+                     | None => (h, 0%Z) end = (h, 0%Z)).
+      { destruct hi as [|c r]; cbn [ohd]; [reflexivity|]. rewrite Hne. reflexivity. }
+      rewrite Erem. clear Erem. cbn [fst snd].
+      assert (Enone : afind k (contents h ns) = None).
+      { rewrite Ens, contents_app, afind_app, afind_lo by exact Hlo. apply afind_hi. exact Hgt. }
+      exists ns. split; [exact R|]. split.
+      + unfold alookup. rewrite Enone. reflexivity.
+      + intros k'. destruct (Z.eqb_spec k' k) as [->|_]; auto.
   Qed.
 End Order.
